@@ -118,3 +118,16 @@ Definition position_obs (c : list text * nat) :=
   let '(cl, cur) := c in
   (line_number_chars cl cur, line_number_clusters cl cur, byte_pos cl cur, char_at cl cur,
    cur - line_start cl (line_number_clusters cl cur))%nat.
+
+From Vicut Require Import Model.Regex Model.Ex.
+(** the reference result of a chain of ex commands: the lines of the buffer,
+    and whether the buffer was ever empty on the way (Vim keeps one empty line
+    then, so the comparison of the reference with Vim leaves those runs out) *)
+Fixpoint ex_trace (s : estate) (cs : list ecmd) : list estate :=
+  match cs with [] => [s] | c :: cs' => s :: ex_trace (estep s c) cs' end.
+Definition ex_obs (c : text * list ecmd) : list text * bool * bool :=
+  let tr := ex_trace (einit (fst c)) (snd c) in
+  (e_lines (erun (fst c) (snd c)),
+   existsb (fun s => match e_lines s with [] => true | _ => false end) tr,
+   (* the last line was empty at some point: without a terminator such a line has no text to stand for it *)
+   existsb (fun s => match rev (e_lines s) with [] :: _ => true | _ => false end) tr).
